@@ -317,6 +317,8 @@ def check(tier):
     rep.obligation("no go/select statement or channel range in the linked packages", not sched)
     amb = [a for a in listing["ambient"] if a["func"] not in EMOJI_FUNCS]
     rep.obligation("time, random numbers, environment: used only by the emoji pickers", not amb)
+    unordered_calls = [u for u in listing.get("unordered_calls", []) if ("github.com/gardenbed/emerge/" + os.path.dirname(u["file"])) in linked]
+    rep.obligation("no maps.Keys/Values/All, reflect map iteration or sync.Map.Range in the linked packages (unordered sequences outside a range statement)", not unordered_calls)
     cfg_bad = newcfg_only(listing)
     rep.obligation("Terminals()/NonTerminals()/Productions() are consumed only by grammar.NewCFG", not cfg_bad)
     rep.obligation("the translator type-checked every package", not listing["type_errors"])
@@ -324,7 +326,8 @@ def check(tier):
     rep.cov["sites_not_modelled"] = skipped
     site_problems = problems + [{"site": "%s:%s" % (s_["file"], s_["line"]), "why": "scheduling: " + s_["call"]} for s_ in sched] \
         + [{"site": "%s:%s" % (a["file"], a["line"]), "why": "ambient input: " + a["call"]} for a in amb] \
-        + [{"site": b, "why": "unsorted table listing used outside grammar.NewCFG"} for b in cfg_bad]
+        + [{"site": b, "why": "unsorted table listing used outside grammar.NewCFG"} for b in cfg_bad] \
+        + [{"site": "%s:%s" % (u["file"], u["line"]), "why": "unordered sequence: " + u["call"]} for u in unordered_calls]
 
     # ---- M: the models against the implementation ----
     nver = 60 if tier == "quick" else 400
